@@ -275,8 +275,19 @@ theorem flatten_specified (taken : List (List Char)) : âˆ€ f : Fn, NoParams f â†
 
 /-- variables with neither regulators nor a function remain free inputs; no other targets are introduced:
 the converter maps over the existing variables only -/
-theorem no_regulators_untouched (taken : List (List Char)) (varName : List Char) (update : Option Fn) :
-    flattenVar taken varName [] update = update := by simp [flattenVar]
+theorem no_regulators_untouched (taken : List (List Char)) (varName : List Char) :
+    flattenVar taken varName [] none = none := by simp [flattenVar]
+
+/-- every variable WITH an update function gets the flattened function, whatever its regulators (also none: D16) -/
+theorem specified_always_flattened (taken : List (List Char)) (varName : List Char) (regs : List Nat) (f : Fn) :
+    flattenVar taken varName regs (some f) = some (flatten taken f) := by simp [flattenVar]
+
+/-- a variable with regulators and no function gets the exploded implicit function -/
+theorem implicit_exploded (taken : List (List Char)) (varName : List Char) (regs : List Nat) (hr : regs â‰  []) :
+    flattenVar taken varName regs none = some (explode taken (regs.map Fn.var) (varName ++ ['_'])) := by
+  cases regs with
+  | nil => exact absurd rfl hr
+  | cons r rs => simp [flattenVar]
 
 /-- the generated constants are never named like a variable (so `add_parameter` cannot refuse them â€” the panic of D13) -/
 theorem generated_not_variable (taken : List (List Char)) (x : List Char) : fresh taken x âˆ‰ taken :=
